@@ -149,6 +149,8 @@ def random_history(rng, length, elem='tr', weights=None, max_dim=3, arith=True, 
             d = rng.randrange(4)
             if cat == 'construct':
                 o = op('clone', d, s)
+                if others and rng.random() < 0.4:
+                    o = op('clone_from', rng.choice(others), s)
             elif cat == 'observe':
                 which = rng.randrange(12)
                 if which <= 3:
@@ -2121,6 +2123,13 @@ def gen_C02(rng, tier, changed):
                 emit([], op('from_arrays', 0, 2, c, rows=rows), size + 1)
             emit([], op('try_from', 0, 2, rows=rows), size + 1)
             emit(base, op('clone', 1, 0), size + 1)
+            # clone_from into receivers that are smaller, larger and equally large (Clone faults, then Drop faults of the old contents)
+            for (dr, dc) in [(0, 0), (1, 1), (r + 1, c + 1), (r, c)]:
+                sh3 = Shadow()
+                sh3.counter = 200
+                recv = build(sh3, 1, dr, dc, order ^ (rng.random() < 0.5), how='rowreshape')
+                emit(base + recv, op('clone_from', 1, 0), size + dr * dc + 1)
+                emit(base + recv, op('clone_from', 1, 0), size + 1, elem='pn')
             emit(base, op('map', 1, 0, 1), size + 1)
             emit(base, op('map_ref', 1, 0, 1), 2 * size + 1)
             emit(base, op('neg', 1, 0), size + 1)
